@@ -489,6 +489,15 @@ def showRecordData (g : GsfRecord Q) : String :=
 
 def ratToks (l : List Q) : List String := l.map showRat
 
+/-- wire form of a refusal: `ok` or the constructor name. -/
+def refusalCode : Option Refusal → String
+  | none => "ok"
+  | some .xAssert => "xAssert"
+  | some .xIndex => "xIndex"
+  | some .dAssert => "dAssert"
+  | some .dValue => "dValue"
+  | some .lengths => "lengths"
+
 structure St where
   o : Option (Obj Q) := none
   g : Option (GObj Q) := none
@@ -544,6 +553,42 @@ def step (st : St) (toks : List String) : St × String :=
           if res.length % 2 ≠ 0 then (st, err "value") else
           let o' := o.apply (.solve kw res)
           ({ st with o := some o' }, showRats (flatV3 o'.d))
+      | none, _ => (st, err "op")
+      | _, none => (st, err "format")
+  | "oguard" :: which :: rest =>
+      (st, done do
+        let xs ← parseRats? rest
+        match which with
+        | "x" => do
+            let (x, _) ← takeList xs
+            pure (refusalCode (xSetter? x))
+        | "d" => do
+            let (d, _) ← takeProfile xs
+            pure (refusalCode (dSetter? d))
+        | _ => none)
+  | "oset2" :: which :: rest =>
+      match st.o, parseRats? rest with
+      | some o, some xs =>
+          match which with
+          | "x" =>
+              match takeList xs with
+              | some (x, _) => let r := o.setX? x; ({ st with o := some r.1 }, refusalCode r.2)
+              | none => (st, err "format")
+          | "d" =>
+              match takeProfile xs with
+              | some (d, _) => let r := o.setD? d; ({ st with o := some r.1 }, refusalCode r.2)
+              | none => (st, err "format")
+          | _ => (st, err "format")
+      | none, _ => (st, err "op")
+      | _, none => (st, err "format")
+  | "osolve2" :: rest =>
+      match st.o, (parseRats? rest).bind (fun xs => do
+          let (kw, r) ← takeKw xs
+          let (res, _) ← takeList r
+          pure (kw, res)) with
+      | some o, some (kw, res) =>
+          let r := o.solve? kw res
+          ({ st with o := some r.1 }, refusalCode r.2)
       | none, _ => (st, err "op")
       | _, none => (st, err "format")
   | "oload" :: rest =>
